@@ -124,16 +124,25 @@ pub fn replay(a: &Args) {
 
 /// a random operation over the name pools (paths are taken from the current tree)
 fn random_op(r: &mut Rng, root: &Element<String>, names: &[String], attrs: &[String], kinds: &[&str]) -> Value {
-    // walk down a random path
-    let mut path: Vec<String> = Vec::new();
-    let mut cur = root;
-    while !cur.children().is_empty() && r.chance(1, 2) && path.len() < 6 {
-        let i = r.below(cur.children().len());
-        let c = cur.children()[i].inner_t();
-        path.push(c.name.clone());
-        // get_child_mut addresses the first child with that name
-        cur = cur.get_child(&c.name).unwrap().inner_t();
+    // a node of the tree chosen uniformly (deep nodes are as likely as shallow ones)
+    fn collect(e: &Element<String>, here: &mut Vec<String>, all: &mut Vec<Vec<String>>) {
+        all.push(here.clone());
+        let mut seen: Vec<&String> = Vec::new();
+        for c in e.children() {
+            let c = c.inner_t();
+            // get_child_mut addresses the first child with a name
+            if seen.contains(&&c.name) || here.len() >= 7 {
+                continue;
+            }
+            seen.push(&c.name);
+            here.push(c.name.clone());
+            collect(c, here, all);
+            here.pop();
+        }
     }
+    let mut all = Vec::new();
+    collect(root, &mut Vec::new(), &mut all);
+    let path: Vec<String> = all[r.below(all.len())].clone();
     let pathv: Vec<Value> = path.iter().map(|p| crate::render::chars(p)).collect();
     let name = crate::render::chars(&names[r.below(names.len())]);
     let mut al: Vec<String> = attrs.iter().filter(|_| r.chance(1, 4)).cloned().collect();
@@ -167,6 +176,10 @@ pub fn record(a: &Args) {
     let mut kinds: Vec<&str> = vec!["add", "add", "add", "optional", "merge", "multiple", "text"];
     if with_remove {
         kinds.push("remove");
+    }
+    let kinds_arg = a.get("kinds");
+    if let Some(k) = &kinds_arg {
+        kinds = k.split(',').collect();
     }
     for _ in 0..n {
         let k = 2 + r.below(5);
